@@ -24,6 +24,14 @@
 //	Every placement of <=F faults, <=C crashes, <=E events is executed (children are generated from the
 //	parent's executed trace, so "the k-th call gets outcome o" is enumerated for every reachable k).
 //
+// Second universe (chain.go): ONE file, R main runs, no bound on the number of perturbations — every transfer
+// attempt takes every outcome of {pass, body cut at grid position 0 / 1 / half / all-but-one with the answer
+// delivered | lost | spoke crash before the ledger write, complete body with the answer lost | crash before
+// MarkSynced, corrupted, short+corrupted (thorough: + request lost / crash before the request)} and every gap
+// every applicable staging event {staging swept, staging file shortened to grid position 0 / 1 / half /
+// all-but-one}; explored level by level with state matching. It makes the class "spoke checkpoint and hub
+// staged length disagree, in either direction, across >= 3 attempts on one file" reachable in the quick tier.
+//
 // Oracle (exactly the property statement):
 //
 //	O1 the hub never exposes (final path / receipt index) bytes that differ from the spoke's file;
@@ -252,11 +260,15 @@ type world struct {
 	// observe() re-reads the hub directory tree / the receipt index only after something that can change them
 	// (a Receive call, a Reconcile call — it may forget stale receipts —, a storage event); in between the last
 	// reading is still exact because nothing but the harness-driven calls touches the hub
-	storDirty, idxDirty    bool
+	storDirty, idxDirty     bool
 	cExposed, cStaged, cIdx []string
-	keyPending   bool           // the last perturbation was a call fault: take the dedup key at the end of that run
-	key          string         // chain.go: full state right after the last perturbation took effect
-	ckSeen       map[string]int // chain.go: spoke checkpoint vs hub staged length, measured at every PutFile
+	keyPending              bool   // the last perturbation was a call fault: take the dedup key at the end of that run
+	key                     string // chain.go: full state right after the last perturbation took effect:
+	covered                 func(key string, run int, afterEvent bool) bool
+	cut                     bool
+	keyRun                  int            // at the end of run keyRun (before its gap event), or
+	keyAfterEvent           bool           // right after the gap event that follows run keyRun
+	ckSeen                  map[string]int // chain.go: spoke checkpoint vs hub staged length, measured at every PutFile
 }
 
 func must(err error, what string) {
@@ -636,7 +648,7 @@ func (w *world) point(at string, isCall, isPut, bodyOK bool, bodyLen int) string
 	if at == "gap" && w.keyPending {
 		// end of the run that held the history's last perturbation (a call fault / crash), before any gap event
 		w.keyPending = false
-		w.key = fmt.Sprintf("r%d|end|%s", w.run, w.fullState())
+		w.key, w.keyRun, w.keyAfterEvent = w.fullState(), w.run, false
 	}
 	w.occ[fmt.Sprintf("%d/%s", w.run, at)]++
 	a := addr{w.run, at, w.occ[fmt.Sprintf("%d/%s", w.run, at)]}
@@ -662,7 +674,7 @@ func (w *world) point(at string, isCall, isPut, bodyOK bool, bodyLen int) string
 			w.trace = append(w.trace, "  event "+p.String())
 			w.applyEvent(p.What)
 			if isLast {
-				w.key = fmt.Sprintf("r%d|%s|ev|%s", w.run, at, w.fullState())
+				w.key, w.keyRun, w.keyAfterEvent = w.fullState(), w.run, true
 			}
 		default:
 			pi.HasFault = true
@@ -877,6 +889,13 @@ func (w *world) execute() {
 		w.trace = append(w.trace, fmt.Sprintf("run %d", w.run))
 		w.agentRun()
 		w.point("gap", false, false, true, 0)
+		if w.key != "" && w.covered != nil && w.covered(w.key, w.keyRun, w.keyAfterEvent) {
+			// chain universe: the state right after the last perturbation was already extended at an earlier level;
+			// what follows (perturbation-free runs to quiescence) is that history's continuation
+			w.cut = true
+			w.trace = append(w.trace, "  (state already extended by an earlier history: continuation not repeated)")
+			return
+		}
 	}
 	if len(w.plan) > 0 && w.inapplicable == "" {
 		for _, ps := range w.plan {
@@ -925,6 +944,9 @@ type result struct {
 	agentErrs    int
 	final        string
 	key          string
+	keyRun       int
+	keyAfterEv   bool
+	cut          bool
 	ckSeen       map[string]int
 }
 
@@ -933,10 +955,15 @@ var (
 	worldN  int64
 )
 
-func runHistory(h history, wantEv bool) *result {
+func runHistory(h history, wantEv bool) *result { return runHistoryCut(h, wantEv, nil) }
+
+// runHistoryCut: covered (chain universe) tells whether a state was already extended by a history of an earlier
+// level; such a history is cut right there.
+func runHistoryCut(h history, wantEv bool, covered func(key string, run int, afterEvent bool) bool) *result {
 	dir := filepath.Join(scratch, fmt.Sprintf("w%d", atomic.AddInt64(&worldN, 1)))
 	w := newWorld(dir, h)
 	w.wantEv = wantEv
+	w.covered = covered
 	wd := time.AfterFunc(120*time.Second, func() {
 		os.RemoveAll(scratch)
 		ev.Unbound("history did not terminate: " + h.String())
@@ -944,7 +971,7 @@ func runHistory(h history, wantEv bool) *result {
 	w.execute()
 	wd.Stop()
 	r := &result{h: h, points: w.points, viols: w.viols, inapplicable: w.inapplicable, trace: w.trace, canons: w.canons, steps: w.steps,
-		transSeen: w.transSeen, outcomeSeen: w.outcomeSeen, closingRuns: w.closingRuns, agentErrs: w.agentErrs, key: w.key, ckSeen: w.ckSeen}
+		transSeen: w.transSeen, outcomeSeen: w.outcomeSeen, closingRuns: w.closingRuns, agentErrs: w.agentErrs, key: w.key, keyRun: w.keyRun, keyAfterEv: w.keyAfterEvent, ckSeen: w.ckSeen, cut: w.cut}
 	if n := len(w.canons); n > 0 {
 		r.final = w.canons[n-1]
 	}
@@ -1113,8 +1140,13 @@ func main() {
 	all := bounds{F: 99, C: 99, E: 99, Total: 99} // chain universe: every placement in every main run
 	configs := []config{{"", 0, 0, bounds{F: 2, C: 1, E: 2, Total: 3}}, {"", 0, 2, bounds{F: 2, C: 1, E: 0, Total: 3}},
 		{cfgChain, 4, 0, all}, {cfgChain, 3, 2, all}}
+	chainWithBefore = true
 	if run.Quick() {
 		configs = []config{{"", 0, 0, bounds{F: 1, C: 1, E: 1, Total: 2}}, {cfgChain, 3, 0, all}}
+		chainWithBefore = false
+	}
+	if os.Getenv("VERIF_C27_CHAIN_BEFORE") != "" { // experiments only
+		chainWithBefore = os.Getenv("VERIF_C27_CHAIN_BEFORE") == "1"
 	}
 	if s := os.Getenv("VERIF_C27_BOUNDS"); s != "" { // F,C,E,Total for the default configuration (experiments only)
 		var b bounds
@@ -1147,7 +1179,7 @@ func main() {
 	// own wall-clock cap below the tier budget: a capped run reports exhaustive=false
 	capAt := time.Now().Add(12 * time.Minute)
 	if run.Quick() {
-		capAt = time.Now().Add(80 * time.Second)
+		capAt = time.Now().Add(90 * time.Second)
 	}
 
 	var (
@@ -1195,7 +1227,9 @@ func main() {
 		for _, c := range r.canons {
 			states[h.Cfg+" "+c] = struct{}{}
 		}
-		finals[h.Cfg+" "+r.final] = struct{}{}
+		if !r.cut {
+			finals[h.Cfg+" "+r.final] = struct{}{}
+		}
 		for k, n := range r.transSeen {
 			transSeen[k] += n
 		}
@@ -1268,10 +1302,16 @@ func main() {
 	// histories with the same number of perturbations, executed in parallel and then booked in generation order,
 	// so which history represents a state (and therefore every count and every minimal counterexample) is
 	// reproducible.
-	chainKeys, chainPruned, chainLevels := 0, 0, 0
+	chainKeys, chainPruned, chainCut, chainLevels := 0, 0, 0, 0
 	for _, root := range chainRoots {
 		b := boundOf[cfgKey(root)]
-		seen := map[string]bool{}
+		// A state met at the end of run r has every future of the same state met at the end of a later run (main
+		// runs without a perturbation are exactly what closing runs are) and of the same state met right after a
+		// gap event of run >= r (the gap may stay quiet); a state met after a gap event covers the same state after
+		// a later gap event. seenEnd / seenEv hold the earliest run at which a state was extended.
+		seenEnd, seenEv := map[string]int{}, map[string]int{}
+		covered := func(m map[string]int, k string, r int) bool { at, ok := m[k]; return ok && at <= r }
+		stateKey := func(h history, state string) string { return budgetKey(h, b) + "|" + state }
 		level := []history{root}
 		for depth := 0; len(level) > 0 && !stop; depth++ {
 			results := make([]*result, len(level))
@@ -1286,7 +1326,12 @@ func main() {
 						if j >= len(level) || run.TimeUp() || time.Now().After(capAt) {
 							return
 						}
-						results[j] = runHistory(level[j], true)
+						h := level[j]
+						// seenEnd / seenEv are only written between levels, so this reads a frozen snapshot
+						results[j] = runHistoryCut(h, true, func(state string, r int, afterEv bool) bool {
+							k := stateKey(h, state)
+							return !noDedup && (covered(seenEnd, k, r) || (afterEv && covered(seenEv, k, r)))
+						})
 					}
 				}()
 			}
@@ -1301,13 +1346,23 @@ func main() {
 				if r.inapplicable != "" || len(r.viols) > 0 {
 					continue
 				}
+				if r.cut {
+					chainPruned++
+					chainCut++
+					continue
+				}
 				if r.key != "" && !noDedup {
-					k := fmt.Sprintf("%s|%s", budgetKey(r.h, b), r.key)
-					if seen[k] {
+					k := stateKey(r.h, r.key)
+					if covered(seenEnd, k, r.keyRun) || (r.keyAfterEv && covered(seenEv, k, r.keyRun)) {
 						chainPruned++
 						continue
 					}
-					seen[k] = true
+					if r.keyAfterEv {
+						seenEv[k] = r.keyRun
+					} else {
+						seenEnd[k] = r.keyRun
+					}
+					chainKeys++
 				}
 				nextLevel = append(nextLevel, children(r, b)...)
 			}
@@ -1316,7 +1371,6 @@ func main() {
 				chainLevels = depth + 1
 			}
 		}
-		chainKeys += len(seen)
 	}
 	exhaustive := !stop
 
@@ -1480,6 +1534,7 @@ func main() {
 	run.Coverage["histories_per_configuration"] = perCfg
 	run.Coverage["chain_distinct_states_expanded"] = chainKeys
 	run.Coverage["chain_histories_not_extended_state_already_expanded"] = chainPruned
+	run.Coverage["chain_histories_cut_at_state_extended_by_earlier_level"] = chainCut
 	run.Coverage["chain_levels"] = chainLevels
 	run.Coverage["chain_checkpoint_vs_hub_staged_at_put"] = ckSeen
 	run.Coverage["distinct_outcomes"] = len(finals)
@@ -1507,7 +1562,7 @@ func main() {
 	run.Assume("short-body = first half of the transmitted bytes; corrupted = one flipped byte in the middle of the transmitted bytes; injected conflict/backpressure answers do not touch hub state")
 	fmt.Printf("C27: histories=%d %v states=%d transitions=%d final-outcomes=%d raw-violating=%d classes=%d exhaustive=%v closing(max)=%d\n",
 		histories, perCfg, len(states), transitions, len(finals), len(fails), run.ViolationClasses(), exhaustive, maxClosing)
-	fmt.Printf("C27: chain universe: levels=%d states-expanded=%d not-extended(state seen)=%d checkpoint-vs-staged=%v\n", chainLevels, chainKeys, chainPruned, ckSeen)
+	fmt.Printf("C27: chain universe: levels=%d states-expanded=%d not-extended(state seen)=%d (cut early=%d) checkpoint-vs-staged=%v\n", chainLevels, chainKeys, chainPruned, chainCut, ckSeen)
 	cleanup()
 	run.Finish()
 }
